@@ -7,7 +7,6 @@ use unicode_width::UnicodeWidthStr;
 use crate::ansi::measure_text_width;
 use crate::color;
 use crate::config;
-use crate::config::delta_unreachable;
 use crate::delta::{self, State, StateMachine};
 use crate::fatal;
 use crate::format::{self, FormatStringSimple, Placeholder};
@@ -168,9 +167,15 @@ impl StateMachine<'_> {
                     self.get_next_color(Some(key_color))
                 }
             }
-            (None, _, true) => delta_unreachable("is_repeat cannot be true when key has no color."),
-            (Some(_), None, _) => {
-                delta_unreachable("There must be a previous key if the key has a color.")
+            (None, previous_key_color, true) => {
+                // The previous line had the same key but its color came from git
+                // (e.g. blame.coloring), so none was recorded: treat as a new key.
+                self.get_next_color(previous_key_color.map(|color| color.as_str()))
+            }
+            (Some(key_color), None, _) => {
+                // The previous key was colored by git and has no recorded color,
+                // so there is nothing to collide with.
+                key_color.to_owned()
             }
         }
     }
